@@ -288,9 +288,32 @@ def survive(rec, t, ti, spec, rng):
             ty = it.resolve(ins.type)
             declared = {v[1] for v in ty.decl.values}
             lim = numbers.LIMIT[ty.wire]
-            n = next((x for x in (lim - 1, 200, 17, 9, 3, 2, 1, 0) if x not in declared and 0 <= x < lim), None)
-            if n is None:
-                continue
+            cands = [x for x in (lim - 1, 200, 17, 9, 3, 2, 1, 0) if x not in declared and 0 <= x < lim]
+            # undeclared ordinals that a <case value="N"> of a switch on this field names come first
+            def flat0(b):
+                for i in b:
+                    if i.kind == "chunked":
+                        yield from flat0(i.body)
+                    else:
+                        yield i
+            for sw0 in flat0(it.body_of((name,))[0]):
+                if sw0.kind == "switch" and sw0.field == pname:
+                    for c0 in sw0.cases:
+                        if not c0.default and str(c0.value).isdigit() and int(c0.value) not in declared and int(c0.value) < lim:
+                            cands.insert(0, int(c0.value))
+            for n in cands[:2]:
+                _survive_one(rec, t, ti, name, pname, n, vg, it, br)
+    return
+
+
+def _survive_one(rec, t, ti, name, pname, n, vg, it, br):
+    from vf.mon.lockstep import FuelExhausted, LockstepReader
+    from vf.ref.interp import Invalid, Unsupported
+    from vf.ref.reader import RefReader
+    from vf.ref.writer import RefWriter
+
+    for _once in (0,):
+        for _x in (0,):
             obj = vg.message(name)
             obj.fields[pname] = n
             if pname + "_data" in obj.fields:
